@@ -30,7 +30,7 @@ impl Vm {
             if cycles % 8192 == 0 {
                 self.run_gc();
             }
-            if cycles == count {
+            if cycles > count {
                 self.run_gc();
                 return Ok(None);
             }
